@@ -4,6 +4,7 @@ C17 at the level of the **translated source**: `IndexMarket.compute_market_index
 and — with the arithmetic of an ordered field — the share-weighted average the property speaks of.
 -/
 import PamsLemmas.SrcIndex
+import Batteries.Tactic.Alias
 import PamsProps.C17
 
 set_option linter.unusedSectionVars false
@@ -61,5 +62,10 @@ theorem source_index_weighted_average (p q : Nat → K) (s : Nat → Nat) (t : I
   simp only [zero_add]
 
 end Field
+
+/-- the component bookkeeping on the source: `is_all_markets_running` is the conjunction of the components'
+running flags; `_add_market` appends a new component and refuses a repeated one or one without
+outstanding shares -/
+alias source_index_components := Pams.Src.index_src_components
 
 end Pams.C17
